@@ -12,7 +12,7 @@ ID = "C19"
 TECHNIQUE = ("explicit-state exploration of operation histories {save->restore, recompute path, breakdown} on every "
              "graph built from the enumerated stream-model behaviours; every reached state must equal the initial "
              "canonical state (nodes, edges, weights, types, attributions, maps, path, breakdown)")
-RULE = ("graphs: the C08 worlds (quick: every sixth program, thorough: every third; whole-trace window and, for step-wrapped worlds, the ProfilerStep "
+RULE = ("graphs: the C08 worlds (every sixth program of the tier's program set; whole-trace window and, for step-wrapped worlds, the ProfilerStep "
         "(0,1) window) x histories: quick = the 9 sequences (a, b, save->restore) covering every ordered pair of "
         "operations, thorough = all 27 sequences of length 3; the canonical state is compared after every operation. "
         "non-trivial = the graph has at least one attributed edge and a path of >= 3 edges")
@@ -29,7 +29,7 @@ def bounds(tier: str) -> Dict[str, Any]:
 
 
 def worlds(tier: str, stats: Dict[str, Any]) -> Iterator[Any]:
-    for w in cpworlds.worlds(tier, stats, subset="smaller" if tier == "quick" else "small"):
+    for w in cpworlds.worlds(tier, stats, subset="smaller"):
         w["tier"] = tier
         yield w
 
